@@ -369,6 +369,7 @@ NOT_APPLICABLE = {}
 
 PROPERTIES = {
     "C01": dict(
+        premises=["premise_oracles_vs_llvm"],
         seed_rotation=['x64_api_flavours', 'x64_api_hist_l1', 'async_fake_one_of_family', 'x64_alloc_any_4k'],
         level_text="Bounded model checking of the real x86-64 installation code: for every function address (any page offset), trampoline placement within the allocator's range and fake address in [1,2^63), an independent x86-64 interpreter started at the function arrives at exactly the fake (or the boolean stub returns the value), and every write hit a page the code had made writable. One installation per harness; the retry loop of the allocator is C11's.",
         level_note="Trusted: the simulated OS/memory model and the stubs that route copy_nonoverlapping to it, the x86-64 interpreter, CBMC. Assumed: cooperative kernel for the first mmap; fake not inside the patched slot. Outside: execution of the fake, concurrent execution of the bytes being patched.",
@@ -405,6 +406,7 @@ PROPERTIES = {
         outside=["cycle counts are covered by induction over one cycle, not unrolled beyond 2"],
     ),
     "C13": dict(
+        premises=["premise_oracles_vs_llvm"],
         seed_rotation=['arm_core_t32_misaligned', 'x64_core_boolean', 'win_core_redirect'],
         level_text="The complete integer register file, stack pointer and return address are symbolic at the call; the independent interpreter follows entry and trampoline to the fake and the solver decides that every register except the architecture's scratch (x86-64: rax) and the stack pointer are unchanged and no memory is written, for both trampoline forms and every address placement; 32-bit ARM: no argument register, callee-saved register, sp or lr is written (only r12).",
         level_note="Vector/floating-point registers are untouched by construction (no instruction in the decoder's table names them; any other instruction is a decode failure). Return path: the fake is entered with the caller's return address in place, so its return goes straight to the caller. AArch64 is covered under C15 once its install harness runs.",
@@ -494,6 +496,7 @@ PROPERTIES = {
         outside=["executors / wakers / threads", "async functions with captured non-'static state beyond the family"],
     ),
     "C15": dict(
+        premises=["premise_oracles_vs_llvm"],
         level_text="(a) every bit-level emitter against the A64 encoding tables for ALL inputs (all imm16/hw/Rd/sf, all 2^64 addresses in every chunk position, all register numbers); (b) the full installation: an independent A64 interpreter started at the function lands exactly on the trampoline writing no register, the trampoline builds exactly the fake's 64-bit address (all 2^64-1 values in one query) in a register in x9..x17 and branches to it, or sets w0 and returns; (c) displacements outside [-128 MiB,+128 MiB) are refused (panic reachable, nothing accepted outside).",
         level_note="Linux variant. macOS: the pure long-jump encoder maybe_emit_long_jump (B, or ADRP+ADD+BR through x16) is decided for all pc/target pairs within +-4 GiB on the a64-macos variant; the Mach VM remapping in patch_function is not modelled. Replays are simulated.",
         quick=["a64_emit_mov_tables", "a64_emit_branch_tables", "a64_emit_bits_roundtrip", "a64_core_redirect", "a64_core_boolean", "a64_core_refusal", "a64_macos_long_jump"],
@@ -502,6 +505,7 @@ PROPERTIES = {
         outside=["macOS long form unless the a64-macos harnesses are listed", "execution on hardware"],
     ),
     "C16": dict(
+        premises=["premise_oracles_vs_llvm"],
         level_text="All 2^32 x 2^32 (target, fake) pairs in each of the three entry cases (A32; T32 4-byte aligned; T32 2-byte aligned) in one query per obligation: independent A32/T32 interpreters with Align(PC,4) semantics decide that the literal the load actually reads holds the fake's address and the BX operand is that register, that at most the 12 written bytes are executed/read, that the saved bytes restore the entry exactly, and which registers are written.",
         level_note="Replays are simulated (no ARM hardware/emulator here): the real patch_arm.rs is compiled for the host. The interpreter knows LDR (literal) A1, T1 and T2 (ldr.w), BX and NOP; the encodings the repaired code emits were cross-checked once against LLVM (clang --target=armv7, llvm-objdump).",
         quick=["arm_core_a32", "arm_core_t32_aligned", "arm_core_t32_misaligned"],
@@ -722,6 +726,155 @@ def premise_flush_native(work, tier):
             return {"name": "flush_native", "ok": None, "detail": r.get("detail", "")}
     return {"name": "flush_native", "ok": not bad, "evaluations": 2, "distinct": 2, "violations": bad, "detail": " || ".join(outs)[:600],
             "samples": ["install/drop at page offsets 64, 126 (64-byte line), 4093 (page)", "40 successive fakes of one function"]}
+
+
+def _mc(triple, lines, extra=()):
+    """assemble with llvm-mc --show-encoding -> list of byte lists (one per instruction line)"""
+    p = subprocess.run(["llvm-mc-14", "-triple=" + triple, "--show-encoding"] + list(extra), input="\n".join(lines) + "\n",
+                       stdout=subprocess.PIPE, stderr=subprocess.PIPE, text=True)
+    if p.returncode != 0:
+        raise RuntimeError("llvm-mc: " + p.stderr[-300:])
+    out = []
+    for l in p.stdout.splitlines():
+        m = re.search(r'encoding: \[([^\]]*)\]', l)
+        if m:
+            out.append([int(x, 16) for x in m.group(1).split(",")])
+    return out
+
+
+def premise_oracles_vs_llvm(work, tier):
+    """Trusted-base cross-check (NOT a solver step): the independent interpreters in /verif/harness are compiled
+    natively and run on instruction sequences ASSEMBLED BY LLVM (llvm-mc / clang) with pseudo-random operands;
+    their verdict (destination, registers written, stack pointer) must equal the semantics the assembly text
+    states.  Seeded by VERIF_SEED."""
+    import random, native
+    if not shutil.which("llvm-mc-14") or not shutil.which("clang-14"):
+        return {"name": "oracles_vs_llvm", "ok": True, "evaluations": 0, "distinct": 0, "detail": "SKIPPED: llvm-mc-14 / clang-14 not available on this machine (the cross-check of the interpreters against LLVM is optional)"}
+    rnd = random.Random(int(os.environ.get("VERIF_SEED", "0") or 0) + 12345)
+    # build the native tool with the CURRENT decoder sources
+    d = os.path.join(work, "oracle_check")
+    if not os.path.isdir(d):
+        os.makedirs(os.path.join(d, "src"))
+        src = os.path.join(VERIF, "tools", "oracle_check")
+        shutil.copy(os.path.join(src, "src", "main.rs"), os.path.join(d, "src", "main.rs"))
+        for f in ("a64dec.rs", "armdec.rs", "x64dec.rs"):
+            t = open(os.path.join(VERIF, "harness", f)).read().replace("kani::any()", "Default::default()")
+            open(os.path.join(d, "src", f), "w").write(t)
+        open(os.path.join(d, "Cargo.toml"), "w").write(open(os.path.join(src, "Cargo.toml.in")).read().replace("@SHIM@", os.path.join(VERIF, "shims", "libc")))
+        p = subprocess.run(["cargo", "build", "--offline", "-q"], cwd=d, env=native.ENV, stdout=subprocess.PIPE, stderr=subprocess.STDOUT, text=True)
+        if p.returncode != 0:
+            return {"name": "oracles_vs_llvm", "ok": None, "detail": "oracle_check build failed: " + p.stdout[-600:]}
+    binp = os.path.join(d, "target", "debug", "oracle_check")
+    cases, expect = [], []
+    M64 = (1 << 64) - 1
+    try:
+        # ---- A64 ----
+        for _ in range(12):
+            pc = rnd.randrange(0x1000, 1 << 46, 4)
+            off = rnd.randrange(-(1 << 27), 1 << 27, 4)
+            enc = _mc("aarch64", ["b #%d" % off])
+            cases.append("a64 %x %s" % (pc, " ".join("%08x" % int.from_bytes(bytes(e), "little") for e in enc)))
+            expect.append(("b #%d @%x" % (off, pc), {"pc": (pc + off) & M64, "written": 0, "bad": "false", "ret": "false"}))
+        for _ in range(12):
+            t = rnd.getrandbits(64)
+            r = rnd.choice([9, 10, 16, 17])
+            pc = rnd.randrange(0x1000, 1 << 46, 4)
+            asm = ["movz x%d, #%d" % (r, t & 0xffff), "movk x%d, #%d, lsl #16" % (r, (t >> 16) & 0xffff),
+                   "movk x%d, #%d, lsl #32" % (r, (t >> 32) & 0xffff), "movk x%d, #%d, lsl #48" % (r, (t >> 48) & 0xffff), "br x%d" % r]
+            enc = _mc("aarch64", asm)
+            cases.append("a64 %x %s" % (pc, " ".join("%08x" % int.from_bytes(bytes(e), "little") for e in enc)))
+            expect.append(("movz/movk x%d=%x; br" % (r, t), {"pc": t, "written": 1 << r, "bad": "false", "ret": "false"}))
+        for v in (0, 1):
+            enc = _mc("aarch64", ["movz w0, #%d" % v, "ret"])
+            cases.append("a64 4000 %s" % " ".join("%08x" % int.from_bytes(bytes(e), "little") for e in enc))
+            expect.append(("movz w0,#%d; ret" % v, {"pc": 0x1111000000000000 + 30, "written": 1, "x0": v, "ret": "true", "bad": "false"}))
+        for _ in range(10):
+            pc = rnd.randrange(0x1000, 1 << 46, 4)
+            pg = rnd.randrange(-(1 << 20), 1 << 20) << 12
+            lo = rnd.randrange(0, 4096)
+            enc = _mc("aarch64", ["adrp x16, #%d" % pg, "add x16, x16, #%d" % lo, "br x16"])
+            cases.append("a64 %x %s" % (pc, " ".join("%08x" % int.from_bytes(bytes(e), "little") for e in enc)))
+            expect.append(("adrp #%d; add #%d; br @%x" % (pg, lo, pc), {"pc": ((pc & ~0xfff) + pg + lo) & M64, "written": 1 << 16, "bad": "false"}))
+        enc = _mc("aarch64", ["nop", "nop", "b #-8"])
+        cases.append("a64 8000 %s" % " ".join("%08x" % int.from_bytes(bytes(e), "little") for e in enc))
+        expect.append(("nop; nop; b #-8", {"pc": 0x8000 + 8 - 8, "written": 0}))
+        # ---- ARM / Thumb ----
+        for _ in range(8):
+            t = rnd.getrandbits(32)
+            base = rnd.randrange(0x1000, 1 << 31, 4)
+            e = _mc("armv7", ["ldr r12, [pc, #-0]", "bx r12"])
+            code = bytes(sum(e, [])) + t.to_bytes(4, "little")
+            cases.append("a32 %x %s" % (base, code.hex()))
+            expect.append(("A32 ldr r12,[pc,#-0]; bx r12; .word %x" % t, {"dest": t, "written": 1 << 12}))
+            e = _mc("armv7", ["ldr r9, [pc, #-0]", "bx r9"])
+            code = bytes(sum(e, [])) + t.to_bytes(4, "little")
+            cases.append("a32 %x %s" % (base, code.hex()))
+            expect.append(("A32 ldr r9 form", {"dest": t, "written": 1 << 9}))
+            e = _mc("thumbv7", ["ldr.w r12, [pc, #4]", "bx r12", "nop"])
+            code = bytes(sum(e, [])) + t.to_bytes(4, "little")
+            cases.append("t32 %x %s" % (base, code.hex()))
+            expect.append(("T32 aligned ldr.w r12,[pc,#4]; bx r12; nop; .word", {"dest": t, "written": 1 << 12}))
+            e = _mc("thumbv7", ["ldr.w r12, [pc, #4]", "bx r12"])
+            code = bytes(sum(e, [])) + t.to_bytes(4, "little") + bytes([0xc0, 0x46])
+            cases.append("t32 %x %s" % (base + 2, code.hex()))
+            expect.append(("T32 halfword-aligned ldr.w r12,[pc,#4]; bx r12; .word", {"dest": t, "written": 1 << 12}))
+            e = _mc("thumbv7", ["ldr r7, [pc, #0]", "bx r7"])
+            code = bytes(sum(e, [])) + t.to_bytes(4, "little")
+            cases.append("t32 %x %s" % (base, code.hex()))
+            expect.append(("T32 old form ldr r7,[pc,#0]; bx r7; .word", {"dest": t, "written": 1 << 7}))
+        # ---- x86-64 (AT&T syntax) ----
+        for _ in range(10):
+            base = rnd.randrange(0x1000, 1 << 46)
+            t = rnd.getrandbits(63)
+            reg, idx = rnd.choice([("rax", 0), ("rbx", 3), ("r11", 11), ("rcx", 1)])
+            e = _mc("x86_64", ["movabsq $%d, %%%s" % (t, reg), "jmpq *%%%s" % reg])
+            cases.append("x64 %x %s" % (base, bytes(sum(e, [])).hex()))
+            expect.append(("movabs %s; jmp" % reg, {"pc": t, "r%d" % idx: t, "ret": "false", "mem": "false", "rsp": 0x7000}))
+        for v in (0, 1):
+            e = _mc("x86_64", ["movq $%d, %%rax" % v, "retq"])
+            cases.append("x64 5000 %s" % bytes(sum(e, [])).hex())
+            expect.append(("mov $%d,%%rax; ret" % v, {"pc": 0xabc0, "ret": "true", "rsp": 0x7008, "mem": "false"}))
+        for _ in range(10):
+            base = rnd.randrange(0x1000, 1 << 46)
+            rel = rnd.randrange(-(1 << 31), 1 << 31)
+            code = bytes([0xE9]) + (rel & 0xffffffff).to_bytes(4, "little")
+            # cross-check the rel32 encoding itself with LLVM's disassembler
+            dis = subprocess.run(["llvm-mc-14", "-triple=x86_64", "--disassemble"], input=" ".join("0x%02x" % b for b in code) + "\n",
+                                 stdout=subprocess.PIPE, stderr=subprocess.PIPE, text=True).stdout
+            m = re.search(r'jmp\s+(-?\d+)', dis)
+            if not m or int(m.group(1)) != rel:
+                return {"name": "oracles_vs_llvm", "ok": None, "detail": "llvm-mc disassembly of jmp rel32 unexpected: " + dis[-100:]}
+            cases.append("x64 %x %s" % (base, code.hex()))
+            expect.append(("jmp rel32 %d @%x" % (rel, base), {"pc": (base + 5 + rel) & M64, "ret": "false", "rsp": 0x7000}))
+        e = _mc("x86_64", ["movabsq $5, %rax", "subq $8, %rsp", "callq *%rax"])
+        cases.append("x64 6000 %s" % bytes(sum(e, [])).hex())
+        expect.append(("movabs; sub rsp,8; call rax", {"pc": 5, "rsp": 0x7000 - 16, "mem": "true"}))
+    except Exception as ex:
+        return {"name": "oracles_vs_llvm", "ok": None, "detail": "vector generation failed: %r" % (ex,)}
+    p = subprocess.run([binp], input="\n".join(cases) + "\n", stdout=subprocess.PIPE, stderr=subprocess.STDOUT, text=True, timeout=60)
+    outs = [l for l in p.stdout.splitlines() if l.strip()]
+    if len(outs) != len(cases):
+        return {"name": "oracles_vs_llvm", "ok": None, "detail": "oracle_check produced %d lines for %d cases: %s" % (len(outs), len(cases), p.stdout[-200:])}
+    bad = []
+    for (what, exp), line, case in zip(expect, outs, cases):
+        kv = dict(x.split("=", 1) for x in line.split()[1:] if "=" in x)
+        if " none" in line or line.endswith("none"):
+            bad.append("%s: interpreter could not decode what LLVM assembled (%s)" % (what, case))
+            continue
+        for k, v in exp.items():
+            got = kv.get(k)
+            if isinstance(v, int):
+                ok = got is not None and int(got, 16) == v
+            else:
+                ok = got == v
+            if not ok:
+                bad.append("%s: interpreter says %s=%s, the assembly means %s=%s (%s)" % (what, k, got, k, ("%x" % v) if isinstance(v, int) else v, case))
+                break
+    # a disagreement means the CHECK's interpreter is wrong: inconclusive (None), never a violation of the property
+    return {"name": "oracles_vs_llvm", "ok": (True if not bad else None), "evaluations": len(cases), "distinct": len(cases) - len(bad), "violations": [],
+            "detail": ("%d instruction sequences assembled by LLVM, all interpreted as the assembly states" % len(cases)) if not bad else
+                      ("ORACLE DISAGREES WITH LLVM (the check's own interpreter is wrong, not the code under test): " + "; ".join(bad[:3])),
+            "oracle_disagreements": bad, "samples": [c for c in cases[:2]] + [cases[-1]]}
 
 
 def premise_verifier_message(work, tier):
